@@ -439,11 +439,16 @@ impl Parser {
                     // its concrete type defined with #[logos(type T = Type)]
                     if let Some(substitute) = self.types.find(&tp.path) {
                         *ty = substitute;
+                        self.types.fix_source_lifetime_implicit(ty);
+                        // Do not substitute inside the substituted type: a concrete type does not
+                        // mention type parameters, and `type T = Vec<T>` would never end
+                        return false;
                     }
                 }
             }
             // If `ty` is a concrete type, fix its lifetimes to 'source (when 'source is implicit)
             self.types.fix_source_lifetime_implicit(ty);
+            true
         });
 
         quote!(#ty)
